@@ -10,7 +10,7 @@ Definition cfg1 : list acfg := [ACfg [1; 2] true None].
 Definition ev1 : list env := [rel 0; rel 0; EDeliver 0 DOther; ETimeout 0; EHbFail 0].
 Lemma inst1_ok : instance_ok fuel_1m cfg1 ev1 = true.
 Proof. vm_compute. reflexivity. Qed.
-Lemma inst1_terminates : level 28 (init cfg1 ev1) = [].
+Lemma inst1_terminates : level 34 (init cfg1 ev1) = [].
 Proof. vm_compute. reflexivity. Qed.
 
 (* a peer whose first datagram is a Setup (the monitor starts while triggers arrive), then every trigger *)
